@@ -83,9 +83,11 @@ LEVEL = {
     "C12": ("proof", "Lean theorems about the hidden state: the k-th threshold used is the k-th element of (user list ++ generator stream); the repaired "
             "__deepcopy__ shares a store location between clone and original only through attributes named in shallow_only (the queue); equal states "
             "evolve equally for any step function and any number of steps; SeedSequence.spawn bookkeeping (keys distinct, prefix-stable, never repeated "
-            "- from C19); counterexample theorem: the originally pinned value test raises for every object holding an array. Reproducibility of whole "
-            "batches, batch-size independence, clone continuation and an attribute-graph scan for shared memory are checked on the implementation for "
-            "every class and both stores. Statistical independence of numpy streams is numpy's contract", "7 C12", NOTE,
+            "- from C19); counterexample theorem: the originally pinned value test raises for every object holding an array; on the composed step models a run "
+            "splits at any step into the first part and the run continued from the state AND the carried electronics (shRun_append; afRun_append: for "
+            "A-FSSH the electronics of the last TWO positions - the repaired simulate() keeps them). Reproducibility of whole "
+            "batches (also from the caller's own arrays and on one shared model object), batch-size independence, clone continuation (also of clones taken "
+            "while the original runs) and an attribute-graph scan for shared memory are checked on the implementation for every class and both stores. Statistical independence of numpy streams is numpy's contract", "7 C12", NOTE,
             "Lean 4 theorems (store/location model of deepcopy, list lemmas) + implementation oracles on clones and batches"),
     "C13": ("proof", "Lean theorems on the loop model, every interruption point k, trace_every and stopping rule: the run over a concatenated "
             "position stream splits at k into the first part and the loop restarted from the state reached there; the unlogged box latch is "
@@ -111,7 +113,8 @@ LEVEL = {
     "C16": ("proof", "Lean theorems about the stop rule and logging loop for EVERY position stream, limits, box, trace_every, start time/counter: "
             "nothing logged if a limit is met at the start; otherwise the run takes exactly K>=1 steps, K the FIRST step whose check fails (latch = inside "
             "at an earlier check) - never earlier, never later; log = [initial] ++ [steps 0<k<K with (n0+k)%te=0] ++ [final], final exactly once, times "
-            "t0+k dt strictly increasing for dt>0; termination within max_steps-n0 steps; kinetic energy = 1/2 sum p^2/m of the logged momentum. The "
+            "t0+k dt strictly increasing for dt>0; termination within max_steps-n0 steps; the final state does not depend on trace_every and the last logged "
+            "entry is that final state for every stride; kinetic energy = 1/2 sum p^2/m of the logged momentum. The "
             "dynamics are abstracted as the position stream (taken from a limit-free run of the same trajectory). Tied to continue_simulating of all "
             "classes incl. MD on boundary-directed states and to whole runs with random limits; even-sampling children checked on the implementation StepThm.shRun_clock/shRun_length: step counter and clock of the k-th logged state of a composed run.", "7 C16", NOTE,
             "Lean 4 theorems (induction over the position stream) + predicate and run-level correspondence"),
